@@ -32,7 +32,14 @@
      (function of the tree: the same tree gives the same result whatever was converted before and
       however the element object came to hold it -- checked on recorded call histories, OmmlTrace)
    DON'T-CARE (documentation silent; written as optional / multi-valued pattern items):
-     * blanks anywhere;  the separator between the m:e children of a delimiter
+     * blanks the TEMPLATES add (after an n-ary operator, around separators ...): any number, anywhere.
+       Blanks that are RUN TEXT are text: each must be there (a blank-only run, several blanks,
+       leading / trailing blanks of a run, at every position), except where the library normalises
+       an operand before it chooses the template and the documentation says nothing about blanks:
+       leading / trailing blanks of a radical's degree, a limit / degree that consists of blanks
+       only, blanks around a function name that is a table entry, blanks around the lone bracket
+       of a malformed radical
+     * the separator between the m:e children of a delimiter
      * n-ary operator when m:chr is absent or has no m:val: \sum (library default) or \int (OOXML)
      * accent command when the accent character is absent / has no m:val / is not one of the five
      * a delimiter character whose element has no m:val: the OOXML default or nothing
@@ -116,6 +123,10 @@ MapAtom(a) == IF a \in DOMAIN Sym THEN Sym[a] ELSE a
 MapText(t) == [i \in 1..Len(t) |-> MapAtom(t[i])]
 NoWS(s) == SelectSeq(s, LAMBDA a : a # WS)
 Blank(s) == NoWS(s) = <<>>
+RECURSIVE TrimL(_), TrimR(_)
+TrimL(s) == IF s # <<>> /\ Head(s) = WS THEN TrimL(Tail(s)) ELSE s
+TrimR(s) == IF s # <<>> /\ s[Len(s)] = WS THEN TrimR(SubSeq(s, 1, Len(s) - 1)) ELSE s
+Trim(s) == TrimR(TrimL(s))                     \* str.strip()
 Has(s, a) == \E i \in 1..Len(s) : s[i] = a
 IndexOf(s, a) == CHOOSE i \in 1..Len(s) : s[i] = a /\ \A j \in 1..(i - 1) : s[j] # a
 Rep(a, n) == [i \in 1..n |-> a]
@@ -225,7 +236,7 @@ ProcNode(n, p) ==
                second == IF swap THEN ProcSlot(n.deg, first.p) ELSE ProcSlot(n.e, first.p)
                dg == IF swap THEN second ELSE first
                ct == IF swap THEN first ELSE second
-               degpart == IF Blank(dg.o) THEN <<>> ELSE <<"[">> \o dg.o \o <<"]">>
+               degpart == IF Blank(dg.o) THEN <<>> ELSE <<"[">> \o Trim(dg.o) \o <<"]">>
                c == NoWS(ct.o)
                x == first.x \/ second.x
            IN IF Len(c) = 1 /\ c[1] \in DOMAIN Closer
@@ -256,7 +267,7 @@ ProcNode(n, p) ==
       [] n.k = "func" ->
            LET a == ProcSlot(n.fName, p)
                b == ProcSlot(n.e, a.p)
-               nm == IF NoWS(a.o) \in DOMAIN FuncCmd THEN <<FuncCmd[NoWS(a.o)]>> ELSE a.o
+               nm == IF Trim(a.o) \in DOMAIN FuncCmd THEN <<FuncCmd[Trim(a.o)]>> ELSE a.o
            IN Res(nm \o Wrap(b.o), b.p, a.x \/ b.x)
       [] n.k = "bar" ->
            LET a == ProcSlot(n.e, p) IN Res(<<"\\overline">> \o Wrap(a.o), a.p, a.x)
@@ -281,7 +292,13 @@ Opt(a) == It({a}, TRUE)
 Lits(s) == [i \in 1..Len(s) |-> Lit(s[i])]
 OptAll(ps) == [i \in 1..Len(ps) |-> [ps[i] EXCEPT !.opt = TRUE]]
 Marker(c) == [as |-> {}, opt |-> TRUE, bud |-> FALSE, br |-> c]
-AllOptional(ps) == \A i \in 1..Len(ps) : ps[i].opt
+IsBlankItem(it) == it.as = {WS} /\ it.br = ""
+\* an operand without required non-blank items: the template around it is DON'T-CARE, and so are its blanks
+AllOptional(ps) == \A i \in 1..Len(ps) : ps[i].opt \/ IsBlankItem(ps[i])
+RECURSIVE TrimOptL(_)
+TrimOptL(ps) == IF ps # <<>> /\ IsBlankItem(Head(ps)) THEN <<[Head(ps) EXCEPT !.opt = TRUE]>> \o TrimOptL(Tail(ps)) ELSE ps
+Rev(ps) == [i \in 1..Len(ps) |-> ps[Len(ps) + 1 - i]]
+TrimOpt(ps) == Rev(TrimOptL(Rev(TrimOptL(ps))))        \* leading / trailing blanks become DON'T-CARE
 
 RECURSIVE PatNode(_), PatSeq(_), PatJoin(_, _), PatRows(_)
 PatSeq(ns) == IF ns = <<>> THEN <<>> ELSE PatNode(Head(ns)) \o PatSeq(Tail(ns))
@@ -296,13 +313,13 @@ PatRows(rs) == IF rs = <<>> THEN <<>>
 PWrap(ps) == <<Lit("{")>> \o ps \o <<Lit("}")>>
 \* "_{..}", "^{..}", "[..]" : required when the operand has required items, DON'T-CARE when it has none
 Limit(open, ps, close) ==
-    IF AllOptional(ps) THEN OptAll(Lits(open)) \o ps \o OptAll(Lits(close))
+    IF AllOptional(ps) THEN OptAll(Lits(open)) \o OptAll(ps) \o OptAll(Lits(close))
     ELSE Lits(open) \o ps \o Lits(close)
 
 \* the operand of the radical renders to one lone opening bracket: its required items are exactly
 \* one bracket (items that are DON'T-CARE -- an empty matrix, a delimiter without m:val -- do not count)
-Required(ps) == SelectSeq(ps, LAMBDA it : it.br = "" /\ ~it.opt)
-Optional(ps) == SelectSeq(ps, LAMBDA it : it.br = "" /\ it.opt)
+Required(ps) == SelectSeq(ps, LAMBDA it : it.br = "" /\ ~it.opt /\ ~IsBlankItem(it))
+Optional(ps) == OptAll(SelectSeq(ps, LAMBDA it : it.br = "" /\ (it.opt \/ IsBlankItem(it))))
 LoneBracket(s) ==
     /\ s # <<>>
     /\ LET q == Required(PatSeq(s[1])) IN
@@ -315,14 +332,17 @@ DelimPat(a, dflt) ==
     ELSE IF a.v = "" THEN <<>> ELSE <<Lit(a.v)>>
 
 PatNode(n) ==
-    CASE n.k = "r" -> Lits(NoWS(MapText(n.t)))
+    CASE n.k = "r" -> Lits(MapText(n.t))
       [] n.k = "f" -> <<Lit("\\frac")>> \o PWrap(PatSlot(n.num)) \o PWrap(PatSlot(n.den))
       [] n.k = "sSup" -> PatSlot(n.e) \o <<Lit("^")>> \o PWrap(PatSlot(n.sup))
       [] n.k = "sSub" -> PatSlot(n.e) \o <<Lit("_")>> \o PWrap(PatSlot(n.sub))
       [] n.k = "sSubSup" -> PatSlot(n.e) \o <<Lit("_")>> \o PWrap(PatSlot(n.sub))
                                        \o <<Lit("^")>> \o PWrap(PatSlot(n.sup))
       [] n.k = "rad" ->
-           LET dp == Limit(<<"[">>, PatSlot(n.deg), <<"]">>) IN
+           LET dg == IF n.deg = <<>> THEN <<>>          \* blanks at the edges of the (first) degree: DON'T-CARE
+                     ELSE TrimOpt(PatSeq(n.deg[1]))
+                          \o OptAll(Cat([i \in 1..(Len(n.deg) - 1) |-> PatSeq(n.deg[i + 1])]))
+               dp == Limit(<<"[">>, dg, <<"]">>) IN
            IF LoneBracket(n.e)
            THEN <<Lit("\\sqrt")>> \o dp \o <<Lit("{"), Marker(Closer[BracketOf(n.e)])>>
                 \o Optional(PatSeq(n.e[1]))
@@ -341,10 +361,12 @@ PatNode(n) ==
            IF n.rows = <<>> THEN <<Opt("\\begin{matrix}"), Opt("\\end{matrix}")>>
            ELSE <<Lit("\\begin{matrix}")>> \o PatRows(n.rows) \o <<Lit("\\end{matrix}")>>
       [] n.k = "func" ->
-           LET fp == PatSlot(n.fName)
+           LET fp == IF n.fName = <<>> THEN <<>> ELSE PatSeq(n.fName[1])      \* the name: first m:fName child
+               dups == IF n.fName = <<>> THEN <<>>
+                       ELSE OptAll(Cat([i \in 1..(Len(n.fName) - 1) |-> PatSeq(n.fName[i + 1])]))
                plain == \A i \in 1..Len(fp) : ~fp[i].opt /\ fp[i].br = "" /\ Cardinality(fp[i].as) = 1
-               word == [i \in 1..Len(fp) |-> CHOOSE a \in fp[i].as : TRUE]
-           IN (IF plain /\ word \in DOMAIN FuncCmd THEN <<Lit(FuncCmd[word])>> ELSE fp)
+               word == Trim([i \in 1..Len(fp) |-> CHOOSE a \in fp[i].as : TRUE])
+           IN (IF plain /\ word \in DOMAIN FuncCmd THEN <<Lit(FuncCmd[word])>> ELSE fp) \o dups
               \o PWrap(PatSlot(n.e))
       [] n.k = "bar" -> <<Lit("\\overline")>> \o PWrap(PatSlot(n.e))
       [] n.k = "acc" ->
@@ -372,6 +394,8 @@ Pattern(tree) == LET raw == RawPattern(tree) IN
                   budget |-> NumMarkers(raw)]
 
 \* NFA simulation: J = set of <<atoms of obs matched, budget used>>
+\* blanks of the output that no item asks for are template blanks: they may be skipped anywhere
+SkipWS(J, obs) == UNION {{<<k, q[2]>> : k \in {k \in q[1]..Len(obs) : \A i \in (q[1] + 1)..k : obs[i] = WS}} : q \in J}
 RECURSIVE Run(_, _, _, _)
 Run(items, obs, budget, J) ==
     IF items = <<>> \/ J = {} THEN J
@@ -379,12 +403,11 @@ Run(items, obs, budget, J) ==
              adv == {<<q[1] + 1, q[2]>> : q \in {q \in J : q[1] < Len(obs) /\ obs[q[1] + 1] \in it.as}}
              skip == IF it.opt THEN J ELSE {}
              paid == IF it.bud THEN {<<q[1], q[2] + 1>> : q \in {q \in J : q[2] < budget}} ELSE {}
-         IN Run(Tail(items), obs, budget, adv \cup skip \cup paid)
+         IN Run(Tail(items), obs, budget, SkipWS(adv \cup skip \cup paid, obs))
 
 Matches(out, pat) ==
-    LET o1 == NoWS(out.o)
-        obs == IF pat.budget = 0 THEN o1 ELSE SelectSeq(o1, LAMBDA a : a \notin Braces)
-    IN \E q \in Run(pat.items, obs, pat.budget, {<<0, 0>>}) : q[1] = Len(obs)
+    LET obs == IF pat.budget = 0 THEN out.o ELSE SelectSeq(out.o, LAMBDA a : a \notin Braces)
+    IN \E q \in Run(pat.items, obs, pat.budget, SkipWS({<<0, 0>>}, obs)) : q[1] = Len(obs)
 
 RECURSIVE Depth(_, _, _)
 \* brace depth after s[i..], -1 once it went negative
